@@ -62,16 +62,35 @@ def fresh_text(rng, length=None):
     return ''.join(list(t))
 
 
+def positions(v):
+    """(start, end) as (index, line, column) of every instance in a result: the printed value only shows the indexes"""
+    out = []
+    stack = [v]
+    while stack and len(out) < 12:
+        x = stack.pop()
+        if isinstance(x, (list, tuple)) and not hasattr(x, '_fields'):
+            stack.extend(reversed(x))
+        elif hasattr(x, '_fields') and hasattr(x, '_metadata'):
+            info = x._metadata.position_info
+            if info is not None:
+                try:
+                    out.append((tuple(info.start), tuple(info.end)))
+                except (AttributeError, TypeError):
+                    out.append(('raw', tuple(info)))
+            stack.extend(reversed([getattr(x, f) for f in x._fields]))
+    return tuple(out)
+
+
 def call(mod, entry, text, pos, full):
     parse = mod.parse if entry == '__module__' else getattr(mod, entry).parse
     try:
         v = parse(text, pos, full)
-        return ('V', realrun.pval_api(v))
+        return ('V', realrun.pval_api(v), positions(v))
     except Exception as exc:      # noqa: BLE001
         n = type(exc).__name__
         if n == 'PartialParseError':
             lp = exc.last_position
-            return ('P', realrun.pval_api(exc.partial_result), tuple(lp))
+            return ('P', realrun.pval_api(exc.partial_result), tuple(lp), positions(exc.partial_result))
         if n == 'ParseError':
             return ('E', tuple(exc.position))
         return ('X', n, str(exc)[:40])
@@ -85,19 +104,24 @@ def run(tier, seed, lean):
     n_hist = 60 if tier == 'quick' else 600
     nontrivial = 0
     for h in range(n_hist):
-        mod, _ = realrun.compile_grammar(GRAMMAR)
+        # every other history runs on a module with a `grammar <name>` header (rules are then reached through a context object)
+        gtext = GRAMMAR if h % 2 == 0 else f'grammar c18h_{seed}_{h}\n' + GRAMMAR
+        mod, _ = realrun.compile_grammar(gtext)
         history = []
         length = rng.choice([None, None, 12, 20])
         for _ in range(rng.randint(4, 14)):
             entry = rng.choice(ENTRIES)
             text = fresh_text(rng, length)
+            if history and rng.random() < 0.3:
+                # the previous text continued on a new line: nothing computed for the shorter text may be carried over
+                text = history[-1][1] + '\n' + fresh_text(rng, None)
             pos = rng.choice([0, 0, 0, rng.randint(0, max(0, len(text) - 1))])
             full = rng.random() < 0.7
             history.append((entry, text, pos, full))
         # reference: every call alone on a freshly compiled module
         refs = []
-        for (entry, text, pos, full) in history:
-            ref_mod, _ = realrun.compile_grammar(GRAMMAR)
+        for ri, (entry, text, pos, full) in enumerate(history):
+            ref_mod, _ = realrun.compile_grammar(GRAMMAR if h % 2 == 0 else f'grammar c18r_{seed}_{h}_{ri}\n' + GRAMMAR)
             refs.append(call(ref_mod, entry, ''.join(list(text)), pos, full))
         kinds = {r[0] for r in refs}
         if len(kinds) >= 3:
@@ -201,6 +225,18 @@ def later_grammars(seed):
         k = next(i for i in range(len(child_after)) if child_after[i] != child_before[i])
         bad.append({'key': 'later|child', 'sig': 'later-grammars', 'kind': 'spec',
                     'what': f'reusing the name of its parent altered an existing derived module: {child_before[k]} became {child_after[k]}'})
+    # the same with a dotted name (installed as a package entry)
+    dn = f'c18pkg{seed}.lang'
+    d1, _ = realrun.compile_grammar(f'grammar {dn}\nstart = Word // ","\nWord = /[a-z]+/\n')
+    dins = ['ab,cd', '1;2', 'ab', '']
+    dbefore = [call(d1, '__module__', t, 0, True) for t in dins] + [d1.__doc__]
+    realrun.compile_grammar(f'grammar {dn}\nstart = Num // ";"\nNum = /[0-9]+/ |> `int`\n')
+    dafter = [call(d1, '__module__', t, 0, True) for t in dins] + [d1.__doc__]
+    n += len(dins)
+    if dafter != dbefore:
+        k = next(i for i in range(len(dafter)) if dafter[i] != dbefore[i])
+        bad.append({'key': 'later|dotted', 'sig': 'later-grammars', 'kind': 'spec',
+                    'what': f'compiling another grammar under the same dotted name altered the existing module: {str(dbefore[k])[:80]} became {str(dafter[k])[:80]}'})
     return bad, n
 
 
